@@ -79,7 +79,8 @@ def gen(rng, tier, index):
             opts["port"] = rng.choice([5003, 5004, 9999])
     if flavour in ("serial", "aserial", "tcp", "atcp"):
         if rng.random() < 0.5:
-            opts["timeout"] = rng.choice([0.5, 1.0, 2.5])
+            # (None: reads block until data arrives - a documented pyserial value, and falsy)
+            opts["timeout"] = rng.choice([0.5, 1.0, 2.5, None] if flavour == "serial" else [0.5, 1.0, 2.5])
         if rng.random() < 0.6:
             opts["reconnect_timeout"] = rng.choice([0.5, 1.0, 3.0, 10.0, 30.0])
     if flavour in ("mqtt", "amqtt"):
